@@ -24,6 +24,7 @@ import time
 from sim.runner import VERIF
 
 PY = sys.executable
+FAST = False      # --fast: stop each check at its first new violation, do not minimise
 SEEDED = os.path.join(VERIF, "seeded")
 
 
@@ -109,6 +110,8 @@ def evaluate(sid, tier, runs, check_override=None, workers=0):
         if workers:
             env["VERIF_WORKERS"] = str(workers)
         cmd = [PY, "-m", "sim.runner", cid, "--tier", tier, "--no-selftest", "--no-evidence"]
+        if FAST:
+            cmd += ["--first", "--no-minimise"]
         if runs:
             cmd += ["--runs", str(runs)]
         t0 = time.time()
@@ -136,7 +139,11 @@ def main():
     ap.add_argument("--check", default=None, help="run this check instead of meta.property")
     ap.add_argument("--out", default=None, help="write results here instead of RESULTS.json")
     ap.add_argument("--confirm", nargs="*", help="candidate directories to confirm (no check run)")
+    ap.add_argument("--fast", action="store_true",
+                    help="stop each check at its first new violation and skip minimisation")
     a = ap.parse_args()
+    global FAST
+    FAST = a.fast
     if a.confirm:
         for d in a.confirm:
             print(d, json.dumps(confirm(d)), flush=True)
@@ -156,6 +163,9 @@ def main():
     if (not a.only and not a.check) or a.out:
         with open(a.out or os.path.join(SEEDED, "RESULTS.json"), "w") as f:
             json.dump({"tier": a.tier, "verif_seed": int(os.environ.get("VERIF_SEED", "0")),
+                       "fast": bool(a.fast), "note": "fast = each check stopped at its first new "
+                       "violation and reported the un-minimised plan (the registered quick "
+                       "commands always explore everything and minimise)",
                        "results": out}, f, indent=1)
             f.write("\n")
     caught = sum(1 for r in out if r["status"] == "caught")
